@@ -98,6 +98,9 @@ def gen_case(run_seed: int, index: int, tier: str) -> dict:
         # a model sweep builds every channel from one parameter set: k_factor and shadow_sigma_db are given whatever the fading type
         # (each is documented as used only by its own fading type)
         "all_params": rng.random() < 0.3,
+        # noise mode: the channel draws its own coefficients (no csi supplied); the faded signal is read back by a same-seed
+        # call with injected zero noise
+        "self_csi": rng.random() < 0.5,
     }
 
 
@@ -282,6 +285,20 @@ def execute(case: dict) -> RunResult:
                 first = gain[:, ::T]
                 if first.shape[1] >= 2 and bool(((first - first[:, :1]).abs() <= 1e-7 * first[:, :1].abs()).all()):
                     violate("single_gain_per_item", "every coherence block of an item carries the same gain")
+            if B >= 2 and (case["data_seed"] & 2):
+                # x = 1 and zero noise: y is the coefficient itself, exactly. Coefficients are drawn independently across batch
+                # items from a continuous law, so no value may occur in two different items (a coincidence has probability ~2^-46)
+                first = flat(y)[:, ::T]
+                vals = {}
+                shared = 0
+                for b_ in range(B):
+                    for v in set(complex(z) for z in first[b_].tolist()):
+                        if v in vals and vals[v] != b_:
+                            shared += 1
+                        vals.setdefault(v, b_)
+                res.probes["structure.cross_item_coefficient_sharing_checked"] += 1
+                if shared:
+                    violate("coefficient_shared_between_items", f"{shared} coefficient value(s) occur in two different batch items (items must fade independently)")
         if not torch.equal(x, x0):
             violate("input_modified", "the input tensor was modified")
     elif mode == "statistics":
@@ -356,9 +373,20 @@ def execute(case: dict) -> RunResult:
             x = (x * wrow).to(x.dtype)
             res.probes["noise.batch_items_of_unequal_strength"] += 1
         hexp = h[:, torch.arange(L) // T]
-        torch.manual_seed(case["torch_seed"])
-        y = ch(x, csi=hexp)
-        faded = (hexp * as_c(flat(x))).reshape(shape)
+        if case.get("self_csi"):
+            if case.get("rows_unequal") and B >= 4:
+                x = x.clone()
+                x.reshape(B, -1)[1] = 0  # one silent item: what it receives is noise only
+            torch.manual_seed(case["torch_seed"])
+            faded = ch(x, noise=torch.zeros(B, L, dtype=cdt))  # same seed, zero noise: h.x with the coefficients of the judged call
+            torch.manual_seed(case["torch_seed"])
+            y = ch(x)
+            faded = as_c(faded.reshape(shape)) if not torch.is_complex(faded) else faded.reshape(shape)
+            res.probes["noise.channel_draws_its_own_coefficients"] += 1
+        else:
+            torch.manual_seed(case["torch_seed"])
+            y = ch(x, csi=hexp)
+            faded = (hexp * as_c(flat(x))).reshape(shape)
         log.add("noise", y)
         res.faults["injected.csi"] += 1
         res.nontrivial.append(core.short_hash(case))
